@@ -30,6 +30,8 @@ def transparent(n):
 def type_value(de, length='min', variant=0, shape=None):
     dt, mn, mx = G.dataele()[de]
     n = max(mn, 1) if length == 'min' else mx
+    if length == 'odd':
+        n = min(max(mn, 1) + 1, mx)        # one more than the minimum: the lengths between the two ends of a range
     if shape == 'lower' and dt == 'AN':
         # lower-case letters: legal in the extended character set only (the default)
         return ('a' if variant == 0 else 'b') * n
@@ -50,9 +52,13 @@ def type_value(de, length='min', variant=0, shape=None):
                 return v
         raise Ungeneratable('DT length %d..%d' % (mn, mx))
     if dt == 'TM':
-        for L in (4, 6, 7, 8):
-            if mn <= L <= mx:
-                return '12000000'[:L]
+        # HHMM, HHMMSS, HHMMSSD (tenths), HHMMSSDD (hundredths): the shortest admissible ('min'), the longest ('max'), or the
+        # odd one where the element allows it ('odd')
+        fit = [L for L in (4, 6, 7, 8) if mn <= L <= mx]
+        if length == 'odd' and 7 in fit:
+            return '1200301'
+        if fit:
+            return '12003012'[:(fit[-1] if length == 'max' else fit[0])]
         raise Ungeneratable('TM length %d..%d' % (mn, mx))
     raise Ungeneratable('data type %s' % dt)
 
@@ -717,6 +723,7 @@ def plans_d1(entry):
     root = G.load(entry[4])
     yield ('min', {})
     yield ('min-maxlen', {'length': 'max'})
+    yield ('min-oddlen', {'length': 'odd'})
     yield ('lastcode', {'code': 'last'})
     yield ('all', {'all': True})
     yield ('all-filled', {'all': True, 'fill_all': True})
